@@ -152,12 +152,41 @@ Proof. exact rejected_unchanged. Qed.
 Print Assumptions C11_rejected_unchanged.
 
 (* The table driven by the modelled PeerManager (report_failure / report_last_replied / report_last_requested,
-   contact_triple_is_good, get_last_replied) and clock is one of the histories quantified over above, so every
-   theorem of this file applies to it; spelled out for well-formedness. *)
+   contact_triple_is_good, get_last_replied), clock and protocol (KademliaProtocol._add_peer with its real ping, the
+   add queue of routing_table_task) is one of the histories quantified over above, so every theorem of this file applies
+   to it; reached only through the protocol, no probe outcome arrives at the table as a local failure. *)
 Theorem C11_pm_refines : forall own sops,
-  Forall sop_valid sops -> exists ops, Forall op_valid ops /\ s_tab (sys_run own sops) = run own ops.
+  Forall sop_valid sops ->
+  exists ops, Forall op_valid ops /\ s_tab (sys_run own sops) = run own ops /\
+              (Forall sop_proto sops -> Forall op_nofail ops).
 Proof. exact pm_refines. Qed.
 Print Assumptions C11_pm_refines.
+
+(* The queue of routing_table_task loses nobody: a contact handed to KademliaProtocol.add_peer (other than the own id)
+   is still queued or has been offered to TreeRoutingTable.add_peer -- whatever else was reported, popped or probed
+   in between, in whatever order the task pops. *)
+Theorem C11_reported_never_lost : forall own sops p,
+  pid p <> own -> In (SReport p) sops ->
+  In p (s_pending (sys_run own sops)) \/ exists e, In (Add p e) (compile own sys_init sops).
+Proof. exact reported_never_lost. Qed.
+Print Assumptions C11_reported_never_lost.
+
+(* ... and when the task pops a queued contact that is closer than the K-th closest known one, it is admitted. *)
+Theorem C11_queued_closer_admitted : forall own sops p pr w,
+  own < M -> Forall sop_valid sops -> pid p < M ->
+  In p (s_pending (sys_run own sops)) ->
+  (at_least_as_close own (s_tab (sys_run own sops)) p < K)%nat ->
+  In p (contacts (s_tab (fst (sys_step true own (sys_run own sops) (SDrainPick p pr w))))).
+Proof. exact queued_closer_admitted. Qed.
+Print Assumptions C11_queued_closer_admitted.
+
+(* Through the protocol a failed local send of the probe keeps the incumbent and raises nothing, so no empty bucket
+   survives among several. *)
+Theorem C11_sys_no_empty_bucket : forall own sops,
+  own < M -> Forall sop_valid sops -> Forall sop_proto sops ->
+  (length (s_tab (sys_run own sops)) <= 1)%nat \/ Forall (fun b => bpeers b <> []) (s_tab (sys_run own sops)).
+Proof. exact sys_no_empty_bucket. Qed.
+Print Assumptions C11_sys_no_empty_bucket.
 
 Theorem C11_sys_wellformed : forall own sops,
   own < M -> Forall sop_valid sops ->
@@ -194,9 +223,13 @@ Proof. vm_compute. reflexivity. Qed.
 (* the three nearest to key 3 for requester 2 among the twelve contacts of that table *)
 Example C11_ex_find : map pid (find_close 0 (run 0 gap_ops) 3 3 (Some 2)) = [3; 1; 4].
 Proof. vm_compute. reflexivity. Qed.
-(* the reading of "newcomer at a different address" fixed here: a re-add of a KNOWN node id from another address is
-   an address update of that contact (KBucket.add_peer replaces the entry, no probe), not a displacement *)
-Example C11_ex_same_id_new_address :
+(* REFUTED for the code as it is (clean-tree finding, reported): taken literally, "a contact that still answers pings is
+   never displaced by a newcomer at a different address" also covers a newcomer that claims a KNOWN node id from another
+   endpoint.  KBucket.add_peer replaces the stored entry at once, without a ping to the stored endpoint: the probe
+   answers (env0), nothing is probed, yet the contact at endpoint 100 is gone.  This is why C11_live_contact_kept
+   carries the hypothesis pid x <> pid p; the monitor reports every such event under the signature
+   {"finding": "C11-same-id-other-endpoint-replaces-without-probe"}. *)
+Example C11_same_id_other_endpoint_refuted :
   step true 0 (run 0 [Add (mkPeer 7 100 4444) env0]) (Add (mkPeer 7 200 4444) env0)
   = ([mkB 0 M [mkPeer 7 200 4444]], OAdd (Ret true) []).
 Proof. vm_compute. reflexivity. Qed.
